@@ -307,6 +307,10 @@ def two_instances(rng, budget, deep, replay=None):
                     b = c(*(e.args() if e.args else ()), **kw2)
                     b(Q, t)
                 r2 = a(P, t)                      # after another instance was built and used
+                try:
+                    a(Q, e.t(rng))                # ... and after it served a request at another time
+                except Exception:
+                    pass
                 rq = a(Q, t)                      # same object, same time, other points
                 fresh = c(*(e.args() if e.args else ()), **kw)
                 rq0 = fresh(Q, t)                 # the same request to an object never used before
